@@ -6,6 +6,7 @@ package main
 
 import (
 	"bytes"
+	"strings"
 	"time"
 
 	"github.com/bronlabs/bron-crypto/pkg/base/serde"
@@ -47,6 +48,55 @@ func (d *decoded) equal(o *decoded) bool {
 		return bytes.Equal(d.canon, o.canon)
 	}
 	return eq(d.a, o.a) && eq(d.e, o.e) && eq(d.z, o.z)
+}
+
+// expectation returns what the property demands of the verifier for a proof that decodes to d
+// when the honest proof decoded to o: "1" the very same values (canonical re-encodings
+// coincide) must be accepted; "0" a changed value must be rejected; "?" the canonical
+// re-encodings differ only in leading zero bytes of big-number components (a zero-padded
+// integer is numerically the same value but may or may not be accepted as an encoding) and
+// no challenge differs — either verdict is fine.
+func (d *decoded) expectation(o *decoded) string {
+	if d == nil {
+		return "0"
+	}
+	if d.equal(o) {
+		return "1"
+	}
+	if len(d.e) != len(o.e) {
+		return "0"
+	}
+	for i := range d.e {
+		if !bytes.Equal(d.e[i], o.e[i]) {
+			return "0"
+		}
+	}
+	if d.canon != nil && o.canon != nil && canonNorm(d.canon) == canonNorm(o.canon) {
+		return "?"
+	}
+	return "0"
+}
+
+// canonNorm: the CBOR tree with leading zero bytes of byte-string leaves removed.
+func canonNorm(b []byte) string {
+	ls, err := cborLeaves(b)
+	if err != nil {
+		return "!" + string(b)
+	}
+	var sb strings.Builder
+	for _, l := range ls {
+		c := b[l.start:l.end]
+		if l.kind == 'b' {
+			for len(c) > 0 && c[0] == 0 {
+				c = c[1:]
+			}
+		}
+		sb.WriteString(l.path)
+		sb.WriteByte(l.kind)
+		sb.WriteString(string(c))
+		sb.WriteByte(0xff)
+	}
+	return sb.String()
 }
 
 // which component differs first (for the distribution / keys)
@@ -110,6 +160,8 @@ type niCase struct {
 	// hits the target, and for every repetition i a variant in which exactly repetition i
 	// carries a valid sigma transcript that MISSES the target
 	grind func(comp compiler.Name, reps int, hit func(aall []byte, i int, e, z []byte) bool, chal func(j int) (wire, sigma []byte)) (honest []byte, misses [][]byte)
+	// OR composition only: the no-witness forger with an over-long challenge share
+	orForge func(r *vh.Rng) *orForgery
 	// interactive compilers (sigma.Prover/Verifier, zk.Prover/Verifier); "" = as expected
 	runInteractive func(kind string, cs ctxSpec, r *vh.Rng) string
 }
